@@ -290,6 +290,20 @@ def scenarios():
     return {"cases": n, "failures": failures}
 
 
+def _resolve_dotted(path_):
+    import importlib
+    parts = path_.split(".")
+    for i in range(len(parts), 0, -1):
+        try:
+            obj = importlib.import_module(".".join(parts[:i]))
+        except ImportError:
+            continue
+        for p_ in parts[i:]:
+            obj = getattr(obj, p_)
+        return obj
+    raise ImportError(path_)
+
+
 def check_metadata(s, text, path, rpc, is_async, lab_v1):
     out = []
     lines = text.splitlines()
@@ -310,6 +324,31 @@ def check_metadata(s, text, path, rpc, is_async, lab_v1):
     params = [p["name"] for p in cm.get("parameters", [])]
     if params != sig:
         out.append({"what": "metadata parameters differ from the generated client method's signature", "metadata": params, "signature": sig})
+    # result type vs the generated client's return annotation
+    import typing
+    ann = inspect.signature(getattr(cls, snake(rpc))).return_annotation
+    rt = cm.get("resultType")
+    args = typing.get_args(ann)
+    while typing.get_origin(ann) is not None and typing.get_origin(ann) not in (typing.get_origin(typing.Iterable[int]), typing.get_origin(typing.AsyncIterable[int])) and args:
+        ann, args = args[0], typing.get_args(args[0])          # Awaitable[...] wrapper of the asyncio client
+    streamed = typing.get_origin(ann) in (typing.get_origin(typing.Iterable[int]), typing.get_origin(typing.AsyncIterable[int]))
+    inner = typing.get_args(ann)[0] if streamed else ann
+    want_none = inner is None or inner is type(None)
+    ok_rt = True
+    if want_none:
+        ok_rt = rt in (None, "", "None")
+    else:
+        txt = rt or ""
+        if streamed != txt.startswith("Iterable["):
+            ok_rt = False
+        else:
+            path_ = txt[len("Iterable["):-1] if streamed else txt
+            try:
+                ok_rt = _resolve_dotted(path_) is inner
+            except Exception:      # noqa
+                ok_rt = False
+    if not ok_rt:
+        out.append({"what": "metadata resultType differs from the generated client method's return type", "resultType": rt, "annotation": str(ann)})
     # segments
     seg = {x["type"]: x for x in s.get("segments", [])}
     a = next(i for i, ln in enumerate(lines, 1) if ln.startswith("# [START"))
